@@ -1,6 +1,6 @@
 (* C05 — property theorems (statements only; proofs live in Proofs*.v). *)
 From Coq Require Import List ZArith QArith Bool Sorting.Permutation.
-Require Import QV.C05.Model QV.C05.Spec QV.C05.Param QV.C05.Proofs QV.C05.Proofs2 QV.C05.Proofs3 QV.C05.Proofs4 QV.C05.Proofs5 QV.C05.Ctors QV.C05.Proofs6 QV.C05.Proofs7 QV.C05.ProofsP QV.C05.Proofs8 QV.C05.Proofs9 QV.C05.Proofs10 QV.C05.Proofs11 QV.C05.Proofs12.
+Require Import QV.C05.Model QV.C05.Spec QV.C05.Param QV.C05.Proofs QV.C05.Proofs2 QV.C05.Proofs3 QV.C05.Proofs4 QV.C05.Proofs5 QV.C05.Ctors QV.C05.Proofs6 QV.C05.Proofs7 QV.C05.ProofsP QV.C05.Proofs8 QV.C05.Proofs9 QV.C05.Proofs10 QV.C05.Proofs11 QV.C05.Proofs12 QV.C05.Proofs13.
 Import ListNotations.
 Open Scope Z_scope.
 
@@ -64,6 +64,39 @@ Theorem C05_single_waveform : forall p S, guard_C05_single_waveform S p = true -
   end.
 Proof. exact single_waveform_thm. Qed.
 Print Assumptions C05_single_waveform.
+
+(* BOTH options together against the plain run (round 6) - the comparison the property statement makes and check_spec
+   evaluates: for every template tree, every set S and every chain G inside both guards,
+   create_program(to_single_waveform=S, global_transformation=G) lasts as long as the plain create_program(), has the
+   same measurement windows (multiset) and plays G applied pointwise to the plain voltages; both are None together *)
+Theorem C05_options_vs_plain : forall p S G,
+  guard_C05_single_waveform S p = true -> guard_C05_parallel_order G p = true ->
+  match compile p S G, compile p [] [] with
+  | Some l, Some l' => ldur l = ldur l' /\ Permutation (windows l) (windows l') /\
+                       forall c t, 0 <= t < ldur l -> play l c t = chain_apply G (fun c' => play l' c' t) c
+  | None, None => True
+  | _, _ => False
+  end.
+Proof. exact options_thm. Qed.
+Print Assumptions C05_options_vs_plain.
+(* the same for parametrised templates under every parameter assignment (guards on the instantiated template) *)
+Theorem C05_options_vs_plain_param : forall q ps S G,
+  guard_C05_single_waveform S (inst (scope_of ps) q) = true -> guard_C05_parallel_order G (inst (scope_of ps) q) = true ->
+  match compile_q q ps S G, compile_q q ps [] [] with
+  | Some l, Some l' => ldur l = ldur l' /\ Permutation (windows l) (windows l') /\
+                       forall c t, 0 <= t < ldur l -> play l c t = chain_apply G (fun c' => play l' c' t) c
+  | None, None => True
+  | _, _ => False
+  end.
+Proof. exact options_param. Qed.
+Print Assumptions C05_options_vs_plain_param.
+(* not vacuous: three collapsed nodes and an offset + channel-changing linear chain on w_good satisfy both guards, both
+   runs compile, the option run has fewer leaves, the plain run has windows, and the voltages on the new channel differ *)
+Example C05_options_vs_plain_nonvacuous :
+  guard_C05_single_waveform S_good w_good = true /\ guard_C05_parallel_order G_good w_good = true /\
+  exists l l', compile w_good S_good G_good = Some l /\ compile w_good [] [] = Some l' /\
+               (length (flat l) < length (flat l'))%nat /\ windows l' <> [] /\ play l 3%N 0 <> play l' 3%N 0.
+Proof. exact options_nonvacuous. Qed.
 
 (* the step it rests on: one collapse (new_subprogram: to_waveform + global transformation) of any well-formed program
    plays X applied to that program and keeps the duration *)
